@@ -158,7 +158,9 @@ def frame_program(draw):
     ops = []
     t0 = strip_distinct(T)
     for _ in range(b.int(1, 4)):
-        op = b.pick(["store", "store", "copy-mutate", "default", "via-fn", "nil-or-variant", "snapshot", "whole-via-fn", "permute-self", "permute-self"])
+        op = b.pick(["store", "store", "copy-mutate", "default", "via-fn", "nil-or-variant", "snapshot", "whole-via-fn", "permute-self", "permute-self", "reordered-literal", "cast-copy", "alias-during-call"])
+        if op == "reordered-literal" and kind not in ("struct", "pair"):
+            op = "alias-during-call"
         if op == "whole-via-fn" and kind not in ("struct", "pair"):
             op = "via-fn"
         ops.append(op)
@@ -198,6 +200,38 @@ def frame_program(draw):
                 body.append(Assign(target, None, StructLit(t0, [(fn_, Field(target, src_of_field[fn_], ft)) for fn_, ft in t0.fields])))
             else:
                 body.append(Assign(target, None, b.value(T)))
+        elif op == "reordered-literal":
+            # the whole frame from a literal whose members are listed in another order than declared, the target member
+            # coming from a variable (an aggregate copied from memory), the guards from literals
+            srcv = b.fresh("rsrc")
+            body.append(Let(srcv, T, True, b.value(T)))
+            extra_live.append((Var(srcv, T), T))
+            members = [(fn_, Var(srcv, T) if fn_ == "t" else Lit(ft, SENT[ft.bits])) for fn_, ft in F.fields]
+            perm = list(b.draw(st.permutations(list(range(len(members))))))
+            body.append(Assign(Var("f", F), None, StructLit(F, [members[j] for j in perm])))
+        elif op == "cast-copy":
+            # a local defined from a layout-preserving cast is a copy, not an alias
+            if isinstance(t0, (Struct, Enum, Array)) and not isinstance(T, Distinct):
+                D = Distinct(b.fresh("DW"), T)
+                b.p.types.append(D)
+                m = b.fresh("dc")
+                body.append(Let(m, D, True, Cast(D, target)))
+                extra_live.append((Cast(T, Var(m, D)), T))
+                body.append(Assign(target, None, b.value(T)))
+                body += dump()
+                body.append(Assign(Var(m, D), None, Cast(D, b.value(T))))
+            else:
+                body.append(Assign(target, None, b.value(T)))
+        elif op == "alias-during-call":
+            # by-value argument and a ^mut pointer to the same variable: the callee writes through the pointer, the
+            # by-value parameter keeps the old value
+            fn = b.fresh("afn")
+            PT = Ptr(True, T)
+            newv = b.value(T)
+            b.p.fns.append(FnDecl(fn, [("a", T), ("p", PT)], T, [Assign(Deref(Var("p", PT), T), None, newv)], Var("a", T)))
+            r = b.fresh("ar")
+            body.append(Let(r, T, True, Call(fn, [target, AddrOf(True, target, PT)], T)))
+            extra_live.append((Var(r, T), T))
         elif op == "snapshot":
             # an immutable binding is a copy as well: later writes to the source must not show through it
             c = b.fresh("snap")
@@ -344,6 +378,37 @@ def abi_sweep_programs():
     return progs
 
 
+def padding_sweep_programs():
+    """struct members packed into the tail padding of a preceding aggregate member: the frame is written from literals whose
+    members are listed in every order, with the aggregate member copied from a variable (local definition and assignment)"""
+    import itertools
+    shapes = [[U64, U8], [U32, U8], [U64, U16], [U16, U8], [U64, U32, U8], [U32, U16, U8]]
+    progs = []
+    for si, shape in enumerate(shapes):
+        p = Program()
+        util = G(None, {"avoid": c01.current_avoid()})
+        Inner = Struct(f"PI{si}", [(f"m{j}", t) for j, t in enumerate(shape)])
+        Outer = Struct(f"PO{si}", [("inner", Inner), ("tail", U8), ("tail2", U8)])
+        Src = Struct(f"PS{si}", [("inner", Inner), ("t1", U8), ("t2", U8)])
+        p.types += [Inner, Outer, Src]
+        body = []
+        inner_val = StructLit(Inner, [(f"m{j}", Lit(t, 11 + j)) for j, t in enumerate(shape)])
+        body.append(Let("src", Src, True, StructLit(Src, [("inner", inner_val), ("t1", Lit(U8, 99)), ("t2", Lit(U8, 98))])))
+        members = [("inner", Field(Var("src", Src), "inner", Inner)), ("tail", Lit(U8, 7)), ("tail2", Lit(U8, 8))]
+        for k, perm in enumerate(itertools.permutations(range(3))):
+            lit = StructLit(Outer, [members[j] for j in perm])
+            v = f"o{k}"
+            body.append(Let(v, Outer, True, lit))
+            body += util.print_value(Var(v, Outer), Outer)
+            body.append(Assign(Var(v, Outer), None, StructLit(Outer, [members[j] for j in reversed(perm)])))
+            body += util.print_value(Var(v, Outer), Outer)
+            body += util.print_value(Var("src", Src), Src)
+        p.fns.append(FnDecl("main", [], VOID, body, None))
+        p.meta = {"frame": "padding-sweep", "inner": [t.src() for t in shape]}
+        progs.append(p)
+    return progs
+
+
 @st.composite
 def frames(draw):
     return frame_program(draw)
@@ -398,8 +463,8 @@ def replay_payload(payload, scratch):
 
 RULE = ("frames = target slot of an aggregate/sum type (enum with payloads and custom discriminants, optional, error union, struct, array) between guards holding "
         "sentinel bytes (struct fields, array neighbours, adjacent locals) + 1-4 write operations (store of a literal, variant/nil/error store, copy-then-mutate, "
-        "default-initialised value, by-value pass + callee mutation + return, a literal that permutes the target's own elements / same-typed fields); plus a systematic sweep passing and returning structs of every size 1..64 bytes "
-        "(5 field shapes) by value, and every (guard type x sum-typed field x field order) small struct passed / returned in registers. Every case writes an aggregate/sum target with a guard adjacent after it, so every case is non-trivial; distinct by program text.")
+        "default-initialised value, by-value pass + callee mutation + return, a literal that permutes the target's own elements / same-typed fields, a frame literal with members in another order and the target member from a variable, a local defined from a layout-preserving cast, a by-value argument plus a ^mut pointer to the same variable); plus a systematic sweep passing and returning structs of every size 1..64 bytes "
+        "(5 field shapes) by value, and every (guard type x sum-typed field x field order) small struct passed / returned in registers, and frames whose guards sit in the tail padding of an aggregate member, written from literals in every member order. Every case writes an aggregate/sum target with a guard adjacent after it, so every case is non-trivial; distinct by program text.")
 
 
 def run(ctx):
@@ -426,7 +491,7 @@ def run(ctx):
                     st_.known_hits[f.key] = st_.known_hits.get(f.key, 0) + 1
                 else:
                     st_.violations[f.key] = (f.desc, f.replay)
-    for p in abi_sweep_programs():
+    for p in abi_sweep_programs() + padding_sweep_programs():
         try:
             check(p, st_, scratch, "sweep")
         except Fail as f:
